@@ -191,6 +191,7 @@ func runTwin(tp *sim.Tape, tier string, o *runOut) {
 	m := NewModel(n, t)
 	a := &twin{}
 	b := &twin{restoreAlways: true}
+	otherRounds := map[string]string{}
 	length := 10 + tp.Choose(70, "len")
 	focus := []string{"dkg", "signing"}[tp.Choose(2, "focus")]
 	var hist []string
@@ -244,12 +245,32 @@ func runTwin(tp *sim.Tape, tier string, o *runOut) {
 			break
 		}
 		_ = svc.SaveFSM(f.Round, b.dump)
+		// the node holds other rounds as well: earlier states of this history are kept
+		// under ids of their own (a ring of five), and every one of them is listed in the
+		// state it was saved in - also when several are owned by the same machine
+		if tp.Choose(2, "keepAsAnotherRound?") == 0 {
+			key := fmt.Sprintf("other-round-%d", len(otherRounds)%5)
+			_ = svc.SaveFSM(key, b.dump)
+			otherRounds[key] = st
+			o.stats.Probe("several-rounds-listed")
+		}
 		if lst, err := svc.GetFSMList(); err != nil {
 			fail(o, "C19", "round-not-listable/"+st, fmt.Sprintf("GetFSMList fails with the round in state %s: %v; history: %s", st, err, h))
 			break
 		} else if lst[f.Round] != st {
 			fail(o, "C19", "listed-state-differs-from-saved-state/"+st, fmt.Sprintf("the round was saved in state %s but GetFSMList reports %q; history: %s", st, lst[f.Round], h))
 			break
+		} else {
+			bad := ""
+			for k, want := range otherRounds {
+				if lst[k] != want && (bad == "" || k < bad) {
+					bad = k
+				}
+			}
+			if bad != "" {
+				fail(o, "C19", "listed-state-differs-from-saved-state/"+otherRounds[bad], fmt.Sprintf("with %d rounds stored, the round saved in state %s is listed as %q; history: %s", len(otherRounds)+1, otherRounds[bad], lst[bad], h))
+				break
+			}
 		}
 		if inst, err := state_machines.FromDump(b.dump); err == nil {
 			if ms, _ := inst.State(); string(ms) != st {
